@@ -72,15 +72,20 @@ pub const HI_BIT: u32 = Limb::BITS - 1;
 pub assume_specification [u64::overflowing_add] (a: u64, b: u64) -> (r: (u64, bool))
     ensures r.1 == (a as int + b as int >= 0x1_0000_0000_0000_0000),
         r.0 as int == (if a as int + b as int >= 0x1_0000_0000_0000_0000 { a as int + b as int - 0x1_0000_0000_0000_0000 } else { a as int + b as int });
+pub open spec fn wneg64(x: u64) -> u64 { if x == 0 { 0u64 } else { (0x1_0000_0000_0000_0000 - x as int) as u64 } }
+pub open spec fn wneg32(x: u32) -> u32 { if x == 0 { 0u32 } else { (0x1_0000_0000 - x as int) as u32 } }
+pub open spec fn wneg128(x: u128) -> u128 { if x == 0 { 0u128 } else { (0x1_0000_0000_0000_0000_0000_0000_0000_0000 - x as int) as u128 } }
 pub assume_specification [u64::wrapping_neg] (x: u64) -> (r: u64)
-    ensures r as int == (if x == 0 { 0 } else { 0x1_0000_0000_0000_0000 - x as int });
+    ensures r == wneg64(x);
 pub assume_specification [u32::wrapping_neg] (x: u32) -> (r: u32)
-    ensures r as int == (if x == 0 { 0 } else { 0x1_0000_0000 - x as int });
+    ensures r == wneg32(x);
 pub assume_specification [u128::wrapping_neg] (x: u128) -> (r: u128)
-    ensures r as int == (if x == 0 { 0 } else { 0x1_0000_0000_0000_0000_0000_0000_0000_0000 - x as int });
+    ensures r == wneg128(x);
 
 pub open spec fn B() -> int { 0x1_0000_0000_0000_0000 }
 pub open spec fn bp(n: nat) -> int { pow(B(), n) }
+/// 2^n as an int
+pub open spec fn p2(n: nat) -> int { pow2(n) as int }
 /// value of the first n limbs (little endian)
 pub open spec fn val(s: Seq<Limb>, n: nat) -> int
     decreases n
@@ -106,6 +111,48 @@ impl<const LIMBS: usize> Int<LIMBS> {
     pub open spec fn iv(&self) -> int {
         if 2 * self.0.v() < bp(LIMBS as nat) { self.0.v() } else { self.0.v() - bp(LIMBS as nat) }
     }
+}
+
+// ---- wrapping ops: link the vstd integer-level specs to the bit-vector operators
+pub proof fn lemma_wsub_u64(x: u64, y: u64, w: u64)
+    requires w as int == (if x as int - y as int >= 0 { x as int - y as int } else { x as int - y as int + 0x1_0000_0000_0000_0000 })
+    ensures w == sub(x, y)
+{
+    let s = sub(x, y);
+    assert(x >= y ==> s == (x - y) as u64) by (bit_vector) requires s == sub(x, y);
+    assert(x < y ==> s == (0xffff_ffff_ffff_ffffu64 - (y - x) as u64 + 1) as u64) by (bit_vector) requires s == sub(x, y);
+}
+pub proof fn lemma_wsub_u32(x: u32, y: u32, w: u32)
+    requires w as int == (if x as int - y as int >= 0 { x as int - y as int } else { x as int - y as int + 0x1_0000_0000 })
+    ensures w == sub(x, y)
+{
+    let s = sub(x, y);
+    assert(x >= y ==> s == (x - y) as u32) by (bit_vector) requires s == sub(x, y);
+    assert(x < y ==> s == (0xffff_ffffu32 - (y - x) as u32 + 1) as u32) by (bit_vector) requires s == sub(x, y);
+}
+pub proof fn lemma_wsub_u128(x: u128, y: u128, w: u128)
+    requires w as int == (if x as int - y as int >= 0 { x as int - y as int } else { x as int - y as int + 0x1_0000_0000_0000_0000_0000_0000_0000_0000 })
+    ensures w == sub(x, y)
+{
+    let s = sub(x, y);
+    assert(x >= y ==> s == (x - y) as u128) by (bit_vector) requires s == sub(x, y);
+    assert(x < y ==> s == (0xffff_ffff_ffff_ffff_ffff_ffff_ffff_ffffu128 - (y - x) as u128 + 1) as u128) by (bit_vector) requires s == sub(x, y);
+}
+pub proof fn lemma_wneg_u64(x: u64, n: u64)
+    requires n as int == (if x == 0 { 0 } else { 0x1_0000_0000_0000_0000 - x as int })
+    ensures n == sub(0u64, x)
+{ lemma_wsub_u64(0, x, n); }
+pub proof fn lemma_wneg_u32(x: u32, n: u32)
+    requires n as int == (if x == 0 { 0 } else { 0x1_0000_0000 - x as int })
+    ensures n == sub(0u32, x)
+{ lemma_wsub_u32(0, x, n); }
+pub proof fn lemma_wadd_u64(x: u64, y: u64, w: u64)
+    requires w as int == (if x as int + y as int >= 0x1_0000_0000_0000_0000 { x as int + y as int - 0x1_0000_0000_0000_0000 } else { x as int + y as int })
+    ensures w == add(x, y)
+{
+    let s = add(x, y);
+    assert((x as u128) + (y as u128) >= 0x1_0000_0000_0000_0000u128 ==> (s as u128) == (x as u128) + (y as u128) - 0x1_0000_0000_0000_0000u128) by (bit_vector) requires s == add(x, y);
+    assert((x as u128) + (y as u128) < 0x1_0000_0000_0000_0000u128 ==> (s as u128) == (x as u128) + (y as u128)) by (bit_vector) requires s == add(x, y);
 }
 
 pub proof fn lemma_bp_succ(n: nat)
